@@ -565,6 +565,7 @@ static JanetAssembleResult janet_asm1(JanetAssembler *parent, Janet source, int 
     if (janet_truthy(x)) def->flags |= JANET_FUNCDEF_FLAG_VARARG;
 
     /* Initialize slotcount */
+    janet_asm_assert(&a, def->arity < INT32_MAX, "arity too large");
     def->slotcount = !!(def->flags & JANET_FUNCDEF_FLAG_VARARG) + def->arity;
 
     /* Check structarg */
@@ -1057,6 +1058,9 @@ JANET_CORE_FN(cfun_asm,
     res = janet_asm(argv[0], 0);
     if (res.status != JANET_ASSEMBLE_OK) {
         janet_panics(res.error ? res.error : janet_cstring("invalid assembly"));
+    }
+    if (res.funcdef->environments_length != 0) {
+        janet_panic("cannot assemble a top level function that captures environments");
     }
     return janet_wrap_function(janet_thunk(res.funcdef));
 }
